@@ -20,7 +20,7 @@ def build_driver():
 
 
 IMPORT_LINES = {"time": '"time"', "netip": '"net/netip"', "template": '"text/template"', "htemplate": 'htemplate "html/template"', "io": '"io"', "unsafe": '"unsafe"'}
-PRELUDE = "type Local1 struct{ X int }\ntype Local2 string\ntype Box[T any] struct{ V T }\ntype Pair[K comparable, V any] struct {\n\tK K\n\tV V\n}\n"
+PRELUDE = "type Local1 struct{ X int }\ntype Local2 string\ntype Box[T any] struct{ V T }\ntype Pair[K comparable, V any] struct {\n\tK K\n\tV V\n}\ntype List[T any] = []T\ntype BoxA[T any] = Box[T]\n"
 
 
 def snippet(rnd, nvars, no_iface=False):
